@@ -31,10 +31,11 @@ class Layout:
 
 def gen_layout(rng, reuse_names=True):
     L = Layout()
-    tops = rng.sample(["main", "utils", "config", "core"], rng.randint(1, 3))
+    # names that are STRING prefixes of one another (package `a`, package `ab`, module `a_types`, module `svc2`): a name test must be on dotted components
+    tops = rng.sample(["main", "utils", "config", "core", "a_types", "svc2"], rng.randint(1, 4))
     for t in tops:
         L.mods[t] = {"pkg": False, "stmts": [], "defs": ["fn_" + t + "_top"]}
-    pkgs = rng.sample(["a", "b", "svc"], rng.randint(1, 3))
+    pkgs = rng.sample(["a", "b", "svc", "ab"], rng.randint(1, 4))
     for p in pkgs:
         L.mods[p] = {"pkg": True, "stmts": [], "defs": ["PKG_" + p.upper()]}
         for bn in rng.sample(BASENAMES if reuse_names else [x + "_" + p for x in BASENAMES], rng.randint(1, 3)):
@@ -110,6 +111,7 @@ def gen_layout(rng, reuse_names=True):
             if st:
                 st["wrap"] = wrap
                 st["multi"] = rng.choice([None, None, None, "post_alias", "pre_alias", "both", "plain"])
+                st["ws"] = rng.choice([None, None, None, "tab", "ff", "cont", "tab2"]) if st["kind"] == "f" else None
                 d["stmts"].append(st)
     return L
 
@@ -125,7 +127,9 @@ def stmt_text(st):
     names = list(st["names"])
     if multi in ("post_alias", "both") and names and names[0] != "*":
         names[0] = "%s as _al_%s" % (names[0], names[0])
-    text = "from %s%s import %s" % ("." * st["level"], st["module"], ", ".join(names))
+    # white space between the tokens of the statement is free: a tab, a form feed or a backslash continuation after `from` (and before `import`)
+    ws = {None: (" ", " "), "tab": ("\t", "\t"), "ff": (" \x0c", " "), "cont": (" \\\n        ", " \\\n        "), "tab2": ("\t \t", " ")}[st.get("ws")]
+    text = "from%s%s%s%simport %s" % (ws[0], "." * st["level"], st["module"], ws[1], ", ".join(names))
     if multi in ("pre_alias", "both", "plain") and names and names[0] != "*":
         text = "from %s%s import (\n    %s,\n)" % ("." * st["level"], st["module"], ",\n    ".join(names)) if False else text
     return text
